@@ -441,18 +441,48 @@ impl<'a> Sim<'a> {
                     (pl.user_can_send_message(actor_id, MessageLikeEventType::from(ty)), format!("user_can_send_message({ty})"), mk(ty, None, o(vec![("body", J::s("b"))]), self))
                 }
                 5 => {
-                    let ty = *self.t.pick(&["m.room.name", "m.room.topic", "org.x.custom", "m.room.join_rules", "m.room.history_visibility", "m.room.encryption"]);
-                    let c = if ty == "m.room.join_rules" { o(vec![("join_rule", J::s("public"))]) } else { o(vec![("x", J::Int(1))]) };
+                    let ty = *self.t.pick(&["m.room.name", "m.room.topic", "org.x.custom", "m.room.join_rules", "m.room.history_visibility", "m.room.encryption", "m.room.power_levels"]);
+                    // (a power-levels event that changes nothing passes the change rules, so its verdict is the level check)
+                    let c = if ty == "m.room.join_rules" { o(vec![("join_rule", J::s("public"))]) } else if ty == "m.room.power_levels" { plj.clone() } else { o(vec![("x", J::Int(1))]) };
                     (pl.user_can_send_state(actor_id, StateEventType::from(ty)), format!("user_can_send_state({ty})"), mk(ty, Some("".into()), c, self))
                 }
                 6 => {
                     // notifications: the push condition is the counterpart
+                    // the context is built from the event content by the specification's defaults, not
+                    // through ruma's own RoomPowerLevels conversion (that conversion is compared below)
+                    let lvl = |j: Option<&J>| -> Option<i64> {
+                        match j {
+                            Some(J::Int(i)) => Some(*i),
+                            Some(J::Str(st)) => st.trim().parse().ok(),
+                            _ => None,
+                        }
+                    };
+                    let mut cusers = BTreeMap::new();
+                    if let Some(us) = plj.get("users").and_then(|u| u.as_obj()) {
+                        for (u, l) in us {
+                            if let (Ok(uid), Some(l)) = (ruma_common::OwnedUserId::try_from(u.as_str()), lvl(Some(l))) {
+                                cusers.insert(uid, js_int::Int::new(l).unwrap_or_default());
+                            }
+                        }
+                    }
+                    let mut notif = ruma_common::power_levels::NotificationPowerLevels::new();
+                    notif.room = js_int::Int::new(lvl(plj.get("notifications").and_then(|nf| nf.get("room"))).unwrap_or(50)).unwrap_or_default();
+                    let own_ctx = ruma_common::push::PushConditionPowerLevelsCtx {
+                        users: cusers,
+                        users_default: js_int::Int::new(lvl(plj.get("users_default")).unwrap_or(0)).unwrap_or_default(),
+                        notifications: notif,
+                    };
+                    let converted: ruma_common::push::PushConditionPowerLevelsCtx = pl.clone().into();
+                    if converted.users != own_ctx.users || converted.users_default != own_ctx.users_default || converted.notifications.room != own_ctx.notifications.room {
+                        self.violate("C20", "plh/push-context-conversion".into(), json!({"oracle":"specification defaults","converted":format!("{converted:?}"),"expected":format!("{own_ctx:?}"),"power_levels":serde_json::from_str::<serde_json::Value>(&text).unwrap_or_default()}));
+                        return;
+                    }
                     let ctx = PushConditionRoomCtx {
                         room_id: ruma_common::OwnedRoomId::try_from(self.room_id.as_str()).unwrap(),
                         member_count: js_int::uint!(3),
                         user_id: target_id.to_owned(),
                         user_display_name: "t".into(),
-                        power_levels: Some(pl.clone().into()),
+                        power_levels: Some(own_ctx),
                     };
                     let evraw: Raw<serde_json::Value> = Raw::new(&json!({"sender": actor, "type": "m.room.message", "content": {"body": "@room"}})).unwrap();
                     let flat = ruma_common::push::FlattenedJson::from_raw(&evraw);
